@@ -294,6 +294,14 @@ where
                 ok = false;
                 viol(rec, S::NAME, "proof-size", &id, format!("proof has {} bytes, more than 4x the best coefficient-matrix shape for this code and security level ({} bytes)", pb, best));
             }
+            // in every regime: a proof never opens more columns than the codeword has
+            let md = &cmm.metadata;
+            let mps: Vec<Vec<MProof<Fr381>>> = convert(&bp);
+            let opened = mps.iter().flatten().map(|m| m.opening.columns.len().max(m.opening.paths.len())).max().unwrap_or(0);
+            if opened > md.n_ext_cols {
+                ok = false;
+                viol(rec, S::NAME, "proof-size", &id, format!("proof of {} bytes opens {} columns of a {}-symbol codeword ({}x{} coefficient matrix)", pb, opened, md.n_ext_cols, md.n_rows, md.n_cols));
+            }
             rec.sample(&format!("{}-size", S::NAME), format!("{}: commitment {} B, proof {} B, best-shape model {} B", id, cb, pb, best));
         }
         rec.class(if ok { "size-law-holds" } else { "size-law-broken" });
